@@ -116,6 +116,16 @@ impl DescribeErr for MonErr {
     }
 }
 
+/// Bound of a contract's type parameter that is used as its error type (`#[sv::error(ErrT)]`).
+pub trait ErrParam:
+    PlanErr + DescribeErr + From<StdError> + fmt::Debug + fmt::Display + Send + Sync
+{
+}
+impl<T> ErrParam for T where
+    T: PlanErr + DescribeErr + From<StdError> + fmt::Debug + fmt::Display + Send + Sync
+{
+}
+
 /// Description of an `anyhow::Error` coming out of the multitest glue: tries the known
 /// error types first.
 pub fn describe_anyhow(e: &anyhow::Error) -> Value {
